@@ -249,13 +249,12 @@ def removeWp (s : St) (w : Wp) : St × Bool :=
   | (s1, .ok d) => ({ s1 with lastSeen := some d }, true)
   | (s1, _) => (s1, false)
 
-/-- `remove_watchpoint_by_addr` -/
+/-- `remove_watchpoint_by_addr`: the first watchpoint on the address is taken out of the list, then disabled -/
 def unwatch (s : St) (a : Addr) : St × Out :=
-  match s.wps.find? (·.addr == a) with
-  | none => (s, .none)
-  | some w =>
-    let s0 := { s with wps := s.wps.filter (·.num != w.num) }
-    match removeWp s0 w with
+  match s.wps.span (fun w => w.addr != a) with
+  | (_, []) => (s, .none)
+  | (pre, w :: post) =>
+    match removeWp { s with wps := pre ++ post } w with
     | (s1, true) => (s1, .ok)
     | (s1, false) => (s1, .err)
 
@@ -457,10 +456,13 @@ def initLaunched (p : Prog) : St :=
     uninit := [{ key := { global := true, addr := p.entry }, kind := .entry, num := 0 }] }
 
 /-- a fresh debugger attached to a running process that has already passed `skip` sites and has `n` threads
-(`Child::from_external` + `build_attached`): all threads seized and interrupted -/
+(`Child::from_external` + `build_attached`): all threads seized and interrupted.  The process is stopped somewhere
+between two sites: the head of `rest` is a pseudo-site for that place (its address is the dynamic linker's, which
+carries no breakpoint as long as the debugger has not restarted the program). -/
 def initAttached (p : Prog) (skip n : Nat) : St :=
   { prog := p,
-    proc := { child := false, code := p.orig, rest := p.full.drop skip, threads := List.replicate n ({} : Thread) },
+    proc := { child := false, code := p.orig, rest := { addr := p.linker, nthreads := n } :: p.full.drop skip,
+              threads := List.replicate n ({} : Thread) },
     status := .inProgress, external := true,
     uninit := [{ key := { global := true, addr := p.entry }, kind := .entry, num := 0 }] }
 
